@@ -10,7 +10,8 @@ git -C "$wt" checkout -q -- . ; git -C "$wt" clean -qfd src
 git -C "$wt" apply "$d/patch.diff" || { echo "APPLY FAILED"; exit 2; }
 # make sure ninja sees the changed files as newer than any object compiled while they were being written
 git -C "$wt" diff --name-only | (cd "$wt" && xargs -r touch)
-cd /verif && VERIF_REPO="$wt" VERIF_BUILD_ROOT="$br" VERIF_SCRATCH="$br" ./check "$prop" --tier "$tier"
+mkdir -p "$br/out"
+cd /verif && VERIF_OUT_DIR="$br/out" VERIF_REPO="$wt" VERIF_BUILD_ROOT="$br" VERIF_SCRATCH="$br" ./check "$prop" --tier "$tier"
 rc=$?
 git -C "$wt" checkout -q -- .
 echo "seeded $(basename $d): check $prop exit $rc"
